@@ -8,13 +8,15 @@ import Gleece.Driver.Paths
 import Gleece.Driver.Graph
 import Gleece.Driver.Annot
 import Gleece.Driver.IRHandler
+import Gleece.Driver.Proj
 open Lean Gleece.Driver
 
 def handlers : List (String × Handler) := [
   ("paths", pathsHandler),
   ("graph", graphHandler),
   ("annot", annotHandler),
-  ("ir", irHandler)
+  ("ir", irHandler),
+  ("proj", projHandler)
 ]
 
 def processLine (prop : String) (line : String) (implLine : Option String) : Json :=
